@@ -399,6 +399,9 @@ struct Node {
     bool paused_between = false;    //!< paused/blocked between a child's result and acting on it
     std::vector<int> ch_fin;        //!< Parallel: -1 not finished, 0 fail, 1 succ
     int started = 0;
+    int last_child_fin_tick = -100;
+    bool replay_in_flight = false;  //!< resumed with a child result still to be acted on (the implementation re-posts it)
+    int stale_until = -1;           //!< stopped / reset with such a re-posted result in flight: it must not arrive any more
     // timeouts / sleep
     int64_t active_ms = 0;
     int64_t t_arm = 0;              //!< virtual time of the last START / RESUME
@@ -461,6 +464,10 @@ struct Tree {
         vh::viol(key, where() + " " + detail + "\n" + tail());
     }
     int violations = 0;
+    //! a composite that acts on a child result re-posted before it was stopped or reset: one key for all its symptoms
+    std::string ckey(int n, const std::string &key) const {
+        return tick <= nd[n].stale_until ? std::string("notify/stale-child-result-replayed-after-stop-or-reset") : key;
+    }
 
     std::string tail(size_t maxn = 40) const {
         std::string o = "last events:";
@@ -678,6 +685,7 @@ struct Tree {
         N.pc = 0; N.idx = 0; N.iter = 0; N.sel = -1; N.last = true; N.res = false;
         N.oblig_ticks = 0; N.oblig_reported = false; N.paused_between = false;
         N.started = 0;
+        N.last_child_fin_tick = -100;
         if (sp[n].kind == K_PAR) N.ch_fin.assign(sp[n].kids.size(), -1);
         model_expect(n);
     }
@@ -822,8 +830,14 @@ struct Tree {
                     viol("order/child-started-while-parent-paused", nname(n) + " started by " + nname(p) + " which is paused");
                 else if (P.ms != M_RUN)
                     viol("order/child-started-by-inactive-parent", nname(n) + " started while " + nname(p) + " is " + kMsName[P.ms]);
-                else if (P.expect != X_START || P.expect_k != s.role) {
-                    viol(std::string("order/") + kKindName[sp[p].kind] + "/unexpected-child-start",
+                else if (P.expect == X_WAIT) {
+                    viol(ckey(p, "order/parent-advanced-while-child-under-way"),
+                         vh::fmt("%s (%s) started child %d (%s) although its current child %d has not delivered a result in this run",
+                                 nname(p).c_str(), describe(sp, p).c_str(), s.role, nname(n).c_str(), P.expect_k));
+                    P.expect = X_NONE;
+                    P.oblig_reported = true;
+                } else if (P.expect != X_START || P.expect_k != s.role) {
+                    viol(ckey(p, std::string("order/") + kKindName[sp[p].kind] + "/unexpected-child-start"),
                          vh::fmt("%s (%s) started child %d (%s); the documented flow says: %s", nname(p).c_str(),
                                  describe(sp, p).c_str(), s.role, nname(n).c_str(), expect_str(p).c_str()));
                     P.expect = X_NONE;      // the automaton lost track: no follow-up reports for this run
@@ -832,6 +846,7 @@ struct Tree {
                     if (P.paused_between) { cnt("pause_between_child_finish_and_parent_handling"); saw_held_back = true; }
                     P.paused_between = false;
                     P.oblig_ticks = 0;
+                    P.replay_in_flight = false;
                     if (sp[p].kind == K_PAR) { ++P.started; model_expect(p); }
                     else { P.expect = X_WAIT; P.expect_k = s.role; }
                 }
@@ -853,7 +868,7 @@ struct Tree {
         }
         case E_FIN: {
             if (N.ms != M_RUN && N.ms != M_PAUSE)
-                viol("lifecycle/finish-while-not-underway", nname(n) + " finished while its lifecycle state is " + kMsName[N.ms]);
+                viol(ckey(n, "lifecycle/finish-while-not-underway"), nname(n) + " finished while its lifecycle state is " + kMsName[N.ms]);
             const bool tmo = N.in_timeout;
             if (tmo) {
                 N.ended_by_timeout = true;
@@ -868,11 +883,15 @@ struct Tree {
                         viol("result/Parallel/wrong-result", nname(n) + " finished with failure (Parallel always reports success)");
                 } else if (N.expect == X_FINISH) {
                     if (N.expect_res != succ)
-                        viol("result/" + kn + "/wrong-result", vh::fmt("%s (%s) finished with %s; the documented flow gives %s",
+                        viol(ckey(n, "result/" + kn + "/wrong-result"), vh::fmt("%s (%s) finished with %s; the documented flow gives %s",
                              nname(n).c_str(), describe(sp, n).c_str(), succ ? "success" : "failure", N.expect_res ? "success" : "failure"));
                     if (N.paused_between) { cnt("pause_between_child_finish_and_parent_handling"); saw_held_back = true; }
+                } else if (N.expect == X_WAIT) {
+                    viol(ckey(n, "order/parent-advanced-while-child-under-way"),
+                         vh::fmt("%s (%s) finished with %s although its current child %d has not delivered a result in this run",
+                                 nname(n).c_str(), describe(sp, n).c_str(), succ ? "success" : "failure", N.expect_k));
                 } else {
-                    viol("result/" + kn + "/premature-finish", vh::fmt("%s (%s) finished with %s; the documented flow says: %s",
+                    viol(ckey(n, "result/" + kn + "/finished-instead-of-starting-child"), vh::fmt("%s (%s) finished with %s; the documented flow says: %s",
                          nname(n).c_str(), describe(sp, n).c_str(), succ ? "success" : "failure", expect_str(n).c_str()));
                 }
             }
@@ -880,13 +899,14 @@ struct Tree {
                 cnt("sleep_finished");
                 if (N.active_ms < s.sleep_ms) cnt("note_sleep_finished_before_its_span_of_unpaused_time");
             }
-            N.ms = M_FIN; N.result = succ; N.expect = X_NONE; N.cont_running = false;
+            N.ms = M_FIN; N.result = succ; N.expect = X_NONE; N.cont_running = false; N.replay_in_flight = false;
             if (p >= 0) {
                 Node &P = nd[p];
                 if ((P.ms == M_RUN || P.ms == M_PAUSE) && P.expect != X_NONE) {
                     if (sp[p].kind == K_PAR) {
                         if (P.ch_fin[s.role] >= 0) viol("order/Parallel/child-finished-twice", nname(n) + " finished twice in one run of " + nname(p));
                         P.ch_fin[s.role] = succ ? 1 : 0;
+                        P.last_child_fin_tick = tick;
                         if (P.ms == M_PAUSE) cnt("parallel_child_finished_while_parallel_paused");
                         P.paused_between = false;
                     } else if (P.expect == X_WAIT && P.expect_k == s.role) {
@@ -912,6 +932,7 @@ struct Tree {
             if (N.ms != M_RUN && N.ms != M_PAUSE)
                 viol("lifecycle/stop-hook-while-not-underway", nname(n) + " got onStop while its lifecycle state is " + kMsName[N.ms]);
             if (N.ms == M_PAUSE) cnt("stopped_while_paused");
+            if (N.replay_in_flight) { N.replay_in_flight = false; N.stale_until = tick + 2; cnt("stopped_with_replayed_child_result_in_flight"); }
             N.ms = M_STOP; N.expect = X_NONE; N.cont_running = false;
             if (p >= 0) {
                 if (nd[p].ms == M_RUN || nd[p].ms == M_PAUSE) N.stopped_by_running_parent = 1;
@@ -926,11 +947,13 @@ struct Tree {
         case E_PAUSE:
             if (N.ms != M_RUN) viol("lifecycle/pause-hook-while-not-running", nname(n) + " got onPause while " + kMsName[N.ms]);
             N.ms = M_PAUSE; N.paused_by_pause = true; N.cont_running = false;
+            if (s.kind == K_PAR && tick - N.last_child_fin_tick <= 1) cnt("parallel_paused_with_child_finish_in_flight");
             if (N.expect == X_START || N.expect == X_FINISH) N.paused_between = true;
             break;
         case E_BLOCK:
             if (N.ms != M_RUN && N.ms != M_PAUSE) viol("lifecycle/block-hook-while-not-underway", nname(n) + " got onBlock while " + kMsName[N.ms]);
             if (N.ms == M_RUN) N.paused_by_pause = false;
+            if (s.kind == K_PAR && N.ms == M_RUN && tick - N.last_child_fin_tick <= 1) cnt("parallel_paused_with_child_finish_in_flight");
             N.ms = M_PAUSE;
             blocks_seen = true;
             if (N.expect == X_START || N.expect == X_FINISH) N.paused_between = true;
@@ -941,11 +964,16 @@ struct Tree {
             N.ms = M_RUN; N.paused_by_pause = false;
             N.t_arm = (int64_t)g_now_ms; N.cont_running = true;
             N.oblig_ticks = 0;
+            if (!is_leaf(s.kind) && s.kind != K_PAR && (N.expect == X_START || N.expect == X_FINISH)) {
+                N.replay_in_flight = true;
+                cnt("resumed_with_child_result_to_replay");
+            }
             break;
         case E_RESET:
             if ((N.ms == M_RUN || N.ms == M_PAUSE) && !in_user_reset)
-                viol("lifecycle/reset-while-underway", nname(n) + " was reset by its parent while its run was under way (" + kMsName[N.ms] + ")");
+                viol(ckey(p, "order/parent-advanced-while-child-under-way"), nname(n) + " was reset by its parent while its run was under way (" + kMsName[N.ms] + ")");
             if ((N.ms == M_RUN || N.ms == M_PAUSE) && in_user_reset) cnt("reset_while_underway");
+            if (N.replay_in_flight) { N.replay_in_flight = false; N.stale_until = tick + 2; cnt("reset_with_replayed_child_result_in_flight"); }
             N.ms = M_IDLE; N.expect = X_NONE; N.cont_running = false; N.finals = 0;
             if (p < 0) {
                 if (fin_pending) { fin_pending = false; fin_lost_by = 1; cnt("reset_with_finish_notification_queued"); }
@@ -1084,15 +1112,6 @@ struct Tree {
         }
     }
 
-    bool any_underway_below(int n, int *which) const {
-        for (int k : sp[n].kids) {
-            if (k < 0) continue;
-            if (nd[k].act->isUnderway()) { *which = k; return true; }
-            if (any_underway_below(k, which)) return true;
-        }
-        return false;
-    }
-
     //! checks valid at every quiescent point (tick, and right after a control call returned)
     void check_tree(const char *when, int after_op = -1) {
         if (!alive) return;
@@ -1107,18 +1126,18 @@ struct Tree {
             const Action::Result want = N.ms == M_FIN ? (N.result ? Action::Result::kSuccess : Action::Result::kFail) : Action::Result::kUnsure;
             if (rs != want)
                 viol("state/result-differs", vh::fmt("after %s: %s (%s) reports result %s", when, nname(n).c_str(), kMsName[N.ms], ToString(rs).c_str()));
-            if (is_leaf(sp[n].kind)) continue;
-            if (st == Action::State::kIdle || st == Action::State::kFinished || st == Action::State::kStoped) {
-                int w = -1;
-                if (any_underway_below(n, &w)) {
-                    const char *how = st == Action::State::kIdle ? "reset" : st == Action::State::kStoped ? "stop"
-                                      : N.ended_by_timeout ? "timeout" : "finish";
+            // a node whose run is under way below a parent that is idle, finished or stopped
+            if (n > 0 && (st == Action::State::kRunning || st == Action::State::kPause)) {
+                const int pn = sp[n].parent;
+                const Action::State ps = nd[pn].act->state();
+                if (ps == Action::State::kIdle || ps == Action::State::kFinished || ps == Action::State::kStoped) {
+                    const char *how = ps == Action::State::kIdle ? "reset" : ps == Action::State::kStoped ? "stop"
+                                      : nd[pn].ended_by_timeout ? "timeout" : "finish";
                     viol(std::string("cleanup/descendant-left-underway-after-") + how,
-                         vh::fmt("after %s: %s is %s but its descendant %s is still %s", when, nname(n).c_str(), ToString(st).c_str(),
-                                 nname(w).c_str(), ToString(nd[w].act->state()).c_str()));
+                         vh::fmt("after %s: %s (%s) is %s but its child %s is still %s", when, nname(pn).c_str(), kKindName[sp[pn].kind],
+                                 ToString(ps).c_str(), nname(n).c_str(), ToString(st).c_str()));
                 }
             }
-            if (N.stopped_by_running_parent) { /* checked on the children below */ }
         }
         for (size_t i = 1; i < nd.size(); ++i) {
             Node &N = nd[i];
